@@ -440,7 +440,9 @@ class SFloat:
 
     def __format__(self, spec):
         # str.format(...) insists on a real str: return a marker that survives rstrip("0").rstrip(".")
-        return "\x00FMT[" + spec + "]\x00"
+        # the tail "0.0" shows afterwards which strips were applied: "0.0" none, "0." rstrip("0"),
+        # "0" rstrip("0").rstrip(".")
+        return "\x00FMT[" + spec + "]\x000.0"
 
 
 class SComplex:
